@@ -441,6 +441,11 @@ class RSeq:
                 for n2, v2 in self.store.items():
                     if n2 != lhs and v2 is agg:
                         self.alias_sensitive = True
+                # ... or that WAS reachable under another name earlier in this step (a plain copy 'a <- v' binds
+                # the same object until 'a' is re-bound): another admissible schedule may put this element write
+                # between the copy and a later read of 'a'
+                if id(agg) in getattr(self, "_step_copied", ()):
+                    self.alias_sensitive = True
                 agg[idx] = val
                 self.masks.wrote(agg, idx)
                 self.taint[lhs] = self.taint.get(lhs, set()) | set(self._cur_taint)
@@ -449,6 +454,9 @@ class RSeq:
                         (agg.copy(), set(self.taint[lhs]), self._mask_copy(agg)))
             else:
                 val = self._eval(rhs)
+                if rhs[0] == "var" and isinstance(val, np.ndarray):
+                    self._step_copied = getattr(self, "_step_copied", set()) | {id(val)}
+                    self._step_copied_keep = getattr(self, "_step_copied_keep", []) + [val]   # (keeps the id alive)
                 self._write(lhs, val)
 
         def nest(ls):
@@ -489,6 +497,8 @@ class RSeq:
         self.next_phase = ph["next"]
         self.step_starts.append((name, self.persistent()))
         self.step_writes.append({})
+        self._step_copied = set()
+        self._step_copied_keep = []
         outcome = "completed"
         try:
             self.run_ops(ph["body"], True, set(), (name,))
